@@ -308,15 +308,26 @@ def _reserved_source(ctx) -> None:
     else:
         S = next(iter(sets))
         adds = []
-        for e in it.events:
-            if e.kind == "call" and e.term[1][0] == "attr" and e.term[1][1] == S:
-                if e.term[1][2] == "add" and len(e.term[2]) == 1:
+        # (the names may be collected per class into a set of their own first - a helper `_public_api_names(cls)` evaluated in line -
+        #  and merged with reserved.update(<that set>): what is added to a merged set is added to the reserved set)
+        parts, todo = [], [S]
+        while todo:
+            P = todo.pop()
+            if P in parts:
+                continue
+            parts.append(P)
+            for e in it.events:
+                if e.kind == "call" and e.term[1][0] == "attr" and e.term[1][1] == P:
+                    if e.term[1][2] == "add" and len(e.term[2]) == 1:
+                        adds.append(e)
+                    elif e.term[1][2] == "update" and len(e.term[2]) == 1 and e.term[2][0][0] == "obj" \
+                            and it.objs[e.term[2][0][1]].kind in ("set", "setcomp") and not it.objs[e.term[2][0][1]].init:
+                        todo.append(e.term[2][0])
+                    else:
+                        problems.append(f"`{show(e.term, it)[:50]}` changes the reserved set other than by add(name)")
+                elif e.kind == "elem" and e.term == P:
                     adds.append(e)
-                else:
-                    problems.append(f"`{show(e.term, it)[:50]}` changes the reserved set other than by add(name)")
-            elif e.kind == "elem" and e.term == S:
-                adds.append(e)
-        if it.objs[S[1]].init:
+        if any(it.objs[P[1]].init for P in parts):
             problems.append("the reserved set starts non-empty")
         seen = []
         for e in adds:
@@ -575,9 +586,18 @@ def _kernels(ctx) -> None:
 
 def _kernel_atom(k: "Kernel", c) -> bool:
     """Is condition literal c about the column's own name / its sanitised form / the seen record (a kernel case split)?"""
-    from ..symx import subterms
+    from ..symx import deep_subterms, subterms
     t, _ = c
     name = ("attr", k.col, "_name")
+    # ... and about nothing else: a condition that also looks at the column's POSITION or at another argument of the function (which
+    # columns are displayed) is a filter on the columns, not a case split of the naming kernel - `idx not in shown and col._name not
+    # in shown_names` lets a hidden column pass unrecorded although it owns the plain accessor of a displayed one
+    params = tuple(getattr(k, "f", None).params) if getattr(k, "f", None) is not None else ()
+    for x in deep_subterms(k.it, t):
+        if x == ("idx", k.loop.id):
+            return False
+        if x[0] == "param" and params and x[1] != params[0]:
+            return False
     for x in subterms(t):
         if x == name or (k.seen is not None and x == k.seen):
             return True
